@@ -1184,6 +1184,7 @@ class t2data(object):
             outfile.write('GOFT\n')
             for blk in self.history_generator:
                 if isinstance(blk, str): blkname = blk
+                elif isinstance(blk, t2generator): blkname = blk.block # (GOFT lists block names)
                 else: blkname = blk.name
                 outfile.write(unfix_blockname(blkname) + '\n')
             outfile.write('\n')
